@@ -76,6 +76,14 @@ Notation rsl := (StStmtProofs.sl token).
 Definition gap (s : rsx) : list token := if ends_name token s then [] else ws1.
 Definition pgap (p : rspar) : list token := if pends token p then [] else ws1.
 
+Definition tykw_kind (k : tykw) : tok_kind :=
+  match k with
+  | TSint => KSint | TInt => KInt | TDint => KDint | TLint => KLint | TUsint => KUsint | TUint => KUint | TUdint => KUdint
+  | TUlint => KUlint | TReal => KReal | TLreal => KLreal | TTime => KTime | TDate => KDate | TTod => KTimeOfDay
+  | TDt => KDateAndTime | TByte => KByte | TWord => KWord | TDword => KDword | TLword => KLword
+  end.
+Definition tykw_tok (k : tykw) : token := tkk (tykw_kind k) (ty_name (kwt (tykw_kind k))).
+
 Definition leaf_sp (l : sleaf) : rsx :=
   match l with
   | LfInt false v => SConst token (int_tok v) CkInt
@@ -83,6 +91,10 @@ Definition leaf_sp (l : sleaf) : rsx :=
   | LfBool b => SBool token bool_t hash_t (if b then true_t else false_t) b
   | LfStr c => SConst token (str_tok c) (str_kind c)
   | LfName n => SName token (id_tok n) ws1
+  | LfTInt k neg v =>                                     (* INT#5  INT#-5 *)
+      STyped token k (tykw_tok k) hash_t (if neg then Some (minus_t, true) else None) (int_tok v) (LfTInt k neg v)
+  | LfBits k v => STyped token k (tykw_tok k) hash_t None (int_tok v) (LfBits k v)      (* WORD#255 *)
+  | LfReal _ _ lit => SConst token (tkk KFixedPoint lit) CkFixed      (* f64's Display is not modelled: outside the guard *)
   end.
 
 Fixpoint sp_of (e : sexpr) : rsx :=
@@ -299,6 +311,8 @@ Definition const_sp (l : sleaf) : sconst token :=
   | LfBool b => ScBool token bool_t hash_t (if b then true_t else false_t) b
   | LfStr c => ScTok token (str_tok c) (str_kind c)
   | LfName n => ScTok token (id_tok n) CkInt                   (* no constant: outside the guard *)
+  | LfTInt _ _ v | LfBits _ v => ScTok token (int_tok v) CkInt  (* typed constants in declarations: outside the guard *)
+  | LfReal _ _ lit => ScTok token (tkk KFixedPoint lit) CkFixed
   end.
 Definition spec_sp (i : dinit) : sspec token :=
   match i with
